@@ -112,7 +112,8 @@ func PackUDP(k *Key, seed uint64, plaintext []byte) []byte {
 }
 
 func UnpackUDP(k *Key, pkt []byte) ([]byte, error) {
-	return shadowsocks.Unpack(nil, pkt, k.K)
+	// Unpack decrypts in place when dst is nil: work on a copy, traces are read more than once
+	return shadowsocks.Unpack(nil, append([]byte(nil), pkt...), k.K)
 }
 
 func TCPAddr(s string) *net.TCPAddr {
